@@ -181,11 +181,26 @@ func (core *JApiCore) setCurrentDirective(keyword string, keywordCoords directiv
 		return core.japiError(fmt.Sprintf("unknown directive %q", keyword), keywordCoords.Begin())
 	}
 
+	if je := core.checkBannedDirective(de, keywordCoords); je != nil {
+		return je
+	}
+
 	d := directive.NewWithCallStack(de, keywordCoords, core.scannersStack.ToDirectiveIncludeTracer())
 	d.Keyword = keyword
 
 	core.currentDirective = d
 
+	return nil
+}
+
+func (core *JApiCore) checkBannedDirective(de directive.Enumeration, keywordCoords directive.Coords) *jerr.JApiError {
+	if _, ok := core.bannedDirectives[de]; ok {
+		return jerr.NewJApiError(
+			fmt.Sprintf("%s (%s)", jerr.DirectiveNotAllowed, de.String()),
+			keywordCoords.File(),
+			keywordCoords.Begin(),
+		)
+	}
 	return nil
 }
 
